@@ -93,3 +93,8 @@ chk('C19', 'exploration',
     'and adjacency of every segment/element-level message of the captured error tree to its segment. A classifier of the report cursor\'s state separates the listed err_iter findings from anything new.',
     'Trusted: stdlib html.parser, vlib/ref_token.py for the source segments, the captured error tree for which messages must appear.',
     'runtime monitor of the rendered report against the source tokenisation and the hooked error tree', 'DESIGN.md 5 C19')
+chk('C20', 'exploration',
+    'The real command-line normaliser runs as a subprocess on scratch files (fixtures and generated documents, four delimiter settings, four line-break conventions, perturbed counts and HL numbers) '
+    'under all combinations of --eol, --fixcounting and the three output modes; outputs are tokenised independently and compared with the input, re-normalised for the fixpoint, and recounted for the repair claim.',
+    'Trusted: vlib/ref_token.py and vlib/ref_envelope.py; one input file per invocation; ASCII inputs.',
+    'black-box runtime monitor of the CLI with independent tokenizer/recount oracles', 'DESIGN.md 5 C20')
